@@ -424,13 +424,22 @@ def check_front_ends(ctx):
     ctx.saw(magic)
     stmts = list(magic.body)
     rm_idx = add_idx = None
+    touched = []  # statements that re-bind / mutate the transformer list in some other way
     for i, st in enumerate(stmts):
         txt = norm(st)
-        if "ast_transformers" in txt and "filter" in txt and "JaxtypingTransformer" in txt and isinstance(st, ast.Assign):
+        rebinding = isinstance(st, (ast.Assign, ast.AugAssign)) and any("ast_transformers" in norm(t) for t in (st.targets if isinstance(st, ast.Assign) else [st.target]))
+        filtering = "JaxtypingTransformer" in txt and "isinstance" in txt and ("filter" in txt or any(isinstance(x, (ast.ListComp, ast.GeneratorExp)) for x in ast.walk(st)))
+        if rebinding and filtering and isinstance(st, ast.Assign):
             rm_idx = i
+        elif rebinding or ("ast_transformers" in txt and any(w in txt for w in (".remove(", ".pop(", ".clear(", "del "))):
+            touched.append(st)
         if "ast_transformers.append" in txt and "JaxtypingTransformer(typechecker=Typechecker(" in txt:
             add_idx = i
-    if rm_idx is None or add_idx is None or rm_idx > add_idx:
+    if add_idx is None:
+        raise AnalysisError("C11.5: the IPython magic no longer appends JaxtypingTransformer(typechecker=Typechecker(..)) in a recognised form")
+    if rm_idx is None and touched:
+        raise AnalysisError(f"C11.5: the IPython magic changes the transformer list by `{short(touched[0], 70)}`, which is not recognised as the removal of earlier JaxtypingTransformers")
+    if rm_idx is None or rm_idx > add_idx:
         ctx.bad("C11.5", magic, magic.node, "the IPython magic does not remove an earlier JaxtypingTransformer before adding the new one: cells would be instrumented twice / "
                 "by the old checker", construct="magic: remove old, then append new")
     else:
